@@ -26,6 +26,7 @@ from common import REPO, VERIF, Check, use_repo
 sys.path.insert(0, str(VERIF / "harness" / "translators"))
 import c04_models as M  # noqa: E402
 import tr_subst  # noqa: E402
+import tr_options_c04c05 as tr_options  # noqa: E402
 
 CLOSE = 1e-10
 
@@ -123,7 +124,7 @@ def compare_p(ck, drv, c, out, lean_taylor=True):
                                     {"case": c, "slice": s, "t": ts[b],
                                      "max_dev": None if R is None else float(np.abs(R - P[b]).max())})
                         ok = False
-        if lean_taylor and nrm > 0:
+        if lean_taylor and nrm > 0 and not M.unnormalised_requested(c):
             reqs = [f"taylor {n} {M.f2h(t)} {M.mat_words(fr)} {M.mat_words(Q)}" for t in ts[1:3]]
             for b, rep in zip((1, 2), drv.ask_many(reqs)):
                 T = M.parse_mat(rep, n) if rep != "bad-op" else None
@@ -194,6 +195,29 @@ def plan(ck):
                 rng.shuffle(ups)
                 c["updates"] = ups if (th or kind != "MG94") else ups[:3]
                 cases.append(c)
+    # construction routes: every class x every route x every subset of the optional keys
+    for kind in ("JC69", "GeneralJC69", "LG", "WAG", "HKY", "GTR", "GeneralSymmetric", "GeneralNonSymmetric", "MG94"):
+        for rk in ("kw", "json", "cli"):
+            mappings = ("absent", "list", "object") if kind.startswith("GeneralS") or kind == "GeneralNonSymmetric" else (None,)
+            norms = ("absent", True, False) if kind == "GeneralNonSymmetric" else (None,)
+            if rk != "json":
+                mappings, norms = mappings[:1] if rk == "cli" else mappings[1:2], norms if rk == "kw" else norms[:1]
+            if kind in ("GeneralJC69",) and rk == "cli":
+                continue
+            for mp in mappings:
+                for nz in norms:
+                    for form in (("inline", "ref") if rk == "json" else ("inline",)):
+                        r = {"kind": rk, "order": rng.randrange(1000), "form": form, "fulltype": form == "ref"}
+                        if mp is not None:
+                            r["mapping"] = mp
+                        if nz is not None:
+                            r["normalize"] = nz
+                        c = M.gen_case(rng, kind, dyadic=False, batch="none", route=r,
+                                       n=rng.choice([3, 4, 5]) if kind.startswith("General") else None,
+                                       code=rng.randrange(15) if kind == "MG94" else None)
+                        if kind == "MG94":
+                            c.pop("updates", None)
+                        cases.append(c)
     weights = [("HKY", 40), ("GTR", 40), ("GeneralSymmetric", 40), ("GeneralNonSymmetric", 35), ("Empirical", 15)]
     mult = 6 if th else 1
     for kind, w in weights:
@@ -234,8 +258,12 @@ def run(ck: Check):
     if not tr_ok:
         ck.notes.append("translator: " + note)
     ck.extra["translator_recognised_source"] = tr_ok
-    ok, broken = ck.lean_side({"TTGen/C04Tables.lean": lean_src},
-                              ["TTModel.C04_Subst", "TTGen.C04Tables", "TTProofs.Props.C04", "drv_c04"],
+    opt_src, opt_ok, opt_note, _ = tr_options.translate(REPO, "C04")
+    if not opt_ok:
+        ck.notes.append("options translator: " + opt_note)
+    ck.extra["options_translator_recognised_source"] = opt_ok
+    ok, broken = ck.lean_side({"TTGen/C04Tables.lean": lean_src, "TTGen/C04Options.lean": opt_src},
+                              ["TTModel.C04_Subst", "TTGen.C04Tables", "TTGen.C04Options", "TTProofs.Props.C04", "drv_c04"],
                               "TTProofs/Props/C04.lean")
     drv = None
     try:
@@ -248,6 +276,19 @@ def run(ck: Check):
     def explore(c, with_model=True):
         outs = M.impl_eval(c)
         trivial = c["kind"] in ("JC69", "LG", "WAG")
+        route = c.get("route") or {"kind": "ctor"}
+        ck.bucket("route=" + route["kind"] + "".join(f"/{x}={route[x]}" for x in ("mapping", "normalize") if x in route))
+        if M.OBSERVED and outs[0]["status"] == "ok":
+            ck.mismatch("object built through this route does not hold the options it was given",
+                        {"case": c, "observed": list(M.OBSERVED)})
+        if route["kind"] != "ctor" and outs[0]["status"] == "ok":
+            base = dict(c, route=dict({x: route[x] for x in ("normalize",) if x in route}, kind="ctor"))
+            base.pop("updates", None)
+            ref = M.impl_eval(base)[0]
+            if ref["status"] != "ok" or any(not np.array_equal(a, b) for a, b in zip(ref["Q"], outs[0]["Q"])) \
+                    or np.abs(ref["P"] - outs[0]["P"]).max() > 1e-13:
+                ck.mismatch("object built through this route evaluates differently from the constructor-built one",
+                            {"case": c, "constructor_status": ref["status"]})
         for k, out in enumerate(outs):
             ck_ = M.state_at(c, k)
             st = out["status"]
@@ -291,6 +332,9 @@ def run(ck: Check):
                 break
     if drv:
         drv.close()
+    if M.CLI_NOTES:
+        ck.notes += sorted(set(M.CLI_NOTES))
+        ck.extra["cli_json_not_loadable"] = sorted(set(M.CLI_NOTES))
 
     if failures:
         seen = set()
